@@ -242,6 +242,22 @@ impl Ctx {
                     libc::symlink(dest.as_ptr(), c.as_ptr());
                 }
             }
+            OutMode::RuleText(body) => {
+                let exe = std::env::current_exe()
+                    .map(|p| p.to_string_lossy().into_owned())
+                    .unwrap_or_default();
+                let mut text = format!("#!{}\n# version {}\n", exe, self.pad);
+                for st in body.split(';') {
+                    text.push_str(&st.replace(',', "\t"));
+                    text.push('\n');
+                }
+                for l in String::from_utf8_lossy(bytes).lines() {
+                    text.push_str("# ");
+                    text.push_str(l);
+                    text.push('\n');
+                }
+                write_all(1, text.as_bytes(), 65536);
+            }
             OutMode::LinkDir(dir) => {
                 let dest = cstr(dir);
                 let c = cstr(&self.arg3);
